@@ -118,7 +118,7 @@ def cases(unit):
             yield {'fam': 'days', 'gaps': list(gaps)}
         for gaps in itertools.product([0.1, 0.7, 0.2, 0.0], repeat=5):
             yield {'fam': 'floats', 'gaps': list(gaps)}
-        yield {'fam': 'manykeys', 'keys': 300 if unit['tier'] == 'quick' else 4200}
+        yield {'fam': 'manykeys', 'keys': 4200}
         return
     a, i, c, inc = CONFIGS[unit['cfg']]
     sh, n = unit['shard']
